@@ -335,6 +335,208 @@ theorem C16_stop_progress (nw : Nat) (acts : List Pool.Act) (hst : (Pool.run (Po
       · exact ⟨.stop, by intro j; simp, by simp, by simp [Pool.step, hstop, hex, hid]⟩
       · exact ⟨.workerExit, by intro j; simp, by simp, by simp [Pool.step, hso.1]; omega⟩
 
+/-! ### Stop returns (no fairness assumption) -/
+
+def fpcW : Pool.FPc → Nat
+  | .off => 0
+  | _ => 1
+
+def stopW : Pool.StopPc → Nat
+  | .idle => 0
+  | .cancelled => 2
+  | .waitedSend => 1
+
+/-- how far the pool is from rest: every job weighs what it still has to go through -/
+def poolMu (s : Pool.St) : Nat :=
+  14 * s.sel.length + 12 * s.lazy.length + 10 * s.list.length + 8 * (Pool.hand s.fpc).length +
+  6 * s.ch.length + 4 * s.execing.length + fpcW s.fpc + s.idleW + stopW s.stop
+
+/-- every step of every goroutine of the pool — a Send inside its select, the flusher, a worker, Stop —
+    strictly decreases `poolMu`; only a NEW Send or a Run can raise it -/
+theorem C16_every_action_progress (s s' : Pool.St) (a : Pool.Act) (ha : ∀ j, a ≠ .send j) (hr : a ≠ .run)
+    (hb : a = .stop → s.stop ≠ .idle)      -- not the beginning of a Stop
+    (hs : Pool.step s a = some s') : poolMu s' < poolMu s := by
+  cases a with
+  | run => exact absurd rfl hr
+  | send j => exact absurd rfl (ha j)
+  | selPush j =>
+    simp only [Pool.step] at hs
+    split at hs
+    · rename_i h
+      cases hs
+      have := List.length_erase_of_mem h.1
+      have hpos : 0 < s.sel.length := List.length_pos_of_mem h.1
+      simp only [poolMu, List.length_append, List.length_singleton]
+      omega
+    · cases hs
+  | selDone j =>
+    simp only [Pool.step] at hs
+    split at hs
+    · rename_i h
+      cases hs
+      have := List.length_erase_of_mem h.1
+      have hpos : 0 < s.sel.length := List.length_pos_of_mem h.1
+      simp only [poolMu]
+      omega
+    · cases hs
+  | selTimeout j =>
+    simp only [Pool.step] at hs
+    split at hs
+    · rename_i h
+      cases hs
+      have := List.length_erase_of_mem h
+      have hpos : 0 < s.sel.length := List.length_pos_of_mem h
+      simp only [poolMu, List.length_cons]
+      omega
+    · cases hs
+  | lazyPush j =>
+    simp only [Pool.step] at hs
+    split at hs
+    · rename_i h
+      have := List.length_erase_of_mem h
+      have hpos : 0 < s.lazy.length := List.length_pos_of_mem h
+      split at hs
+      · cases hs
+        simp only [poolMu, List.length_cons]
+        omega
+      · cases hs
+        have hf : fpcW s.fpc + 8 * (Pool.hand s.fpc).length ≥ 0 := Nat.zero_le _
+        simp only [poolMu, List.length_cons, Pool.hand, fpcW, List.length_nil]
+        cases hfp : s.fpc <;> simp [Pool.hand, fpcW] <;> omega
+    · cases hs
+  | flush =>
+    simp only [Pool.step] at hs
+    cases hf : s.fpc with
+    | off => rw [hf] at hs; cases hs
+    | loop =>
+      rw [hf] at hs
+      simp only at hs
+      cases hl : s.list with
+      | nil => rw [hl] at hs; cases hs; simp [poolMu, hf, hl, Pool.hand, fpcW]
+      | cons x rest =>
+        rw [hl] at hs; cases hs
+        simp [poolMu, hf, hl, Pool.hand, fpcW]; omega
+    | sending x =>
+      rw [hf] at hs
+      simp only at hs
+      split at hs
+      · cases hs
+        simp [poolMu, hf, Pool.hand, fpcW]; omega
+      · cases hs
+  | flushDone =>
+    simp only [Pool.step] at hs
+    cases hf : s.fpc with
+    | off => rw [hf] at hs; cases hs
+    | loop => rw [hf] at hs; cases hs
+    | sending x =>
+      rw [hf] at hs
+      simp only at hs
+      split at hs
+      · cases hs; simp [poolMu, hf, Pool.hand, fpcW]; omega
+      · cases hs
+  | take =>
+    simp only [Pool.step] at hs
+    cases hc : s.ch with
+    | nil => rw [hc] at hs; cases hs
+    | cons x rest =>
+      rw [hc] at hs
+      simp only at hs
+      split at hs
+      · cases hs; simp [poolMu, hc]; omega
+      · cases hs
+  | finish j =>
+    simp only [Pool.step] at hs
+    split at hs
+    · rename_i h
+      cases hs
+      have := List.length_erase_of_mem h
+      have hpos : 0 < s.execing.length := List.length_pos_of_mem h
+      simp only [poolMu]
+      omega
+    · cases hs
+  | workerExit =>
+    simp only [Pool.step] at hs
+    split at hs
+    · rename_i h
+      cases hs
+      simp only [poolMu]
+      omega
+    · cases hs
+  | stop =>
+    simp only [Pool.step] at hs
+    cases hst : s.stop with
+    | idle => exact absurd hst (hb rfl)
+    | cancelled =>
+      rw [hst] at hs
+      simp only at hs
+      split at hs
+      · cases hs; simp [poolMu, hst, stopW]
+      · cases hs
+    | waitedSend =>
+      rw [hst] at hs
+      simp only at hs
+      split at hs
+      · cases hs; simp [poolMu, hst, stopW]; omega
+      · cases hs
+
+/-- a sequence of steps none of which is a new Send, a Run or the beginning of a Stop -/
+def Settling (s : Pool.St) : List Pool.Act → Prop
+  | [] => True
+  | a :: as => (∀ j, a ≠ .send j) ∧ a ≠ .run ∧ (a = .stop → s.stop ≠ .idle) ∧
+      ∃ s', Pool.step s a = some s' ∧ Settling s' as
+
+theorem settling_bounded (s : Pool.St) (as : List Pool.Act) (h : Settling s as) : as.length ≤ poolMu s := by
+  induction as generalizing s with
+  | nil => exact Nat.zero_le _
+  | cons a as ih =>
+    obtain ⟨h1, h2, h3, s', hs, hrest⟩ := h
+    have := C16_every_action_progress s s' a h1 h2 h3 hs
+    have := ih s' hrest
+    simp only [List.length_cons]
+    omega
+
+/-- **Stop returns, under every scheduler.**  From any reachable state in which a Stop is in
+    progress: whatever the goroutines of the pool do — Sends leaving their select, the flusher,
+    workers taking, finishing (every job function returns: the `finish` step) and exiting, Stop's own
+    steps — they can do at most `poolMu` steps, and as long as Stop has not returned one of them can
+    move (`C16_stop_progress`).  No fairness is assumed.  (New Sends are refused while the context is
+    cancelled: they change nothing.) -/
+theorem C16_stop_returns (nw : Nat) (acts as : List Pool.Act)
+    (h : Settling (Pool.run (Pool.init nw) acts) as) :
+    as.length ≤ poolMu (Pool.run (Pool.init nw) acts) :=
+  settling_bounded _ as h
+
+/-- executable form of `Settling` (for the witness below) -/
+def settlingB (s : Pool.St) : List Pool.Act → Bool
+  | [] => true
+  | a :: as =>
+    (match a with | .send _ => false | .run => false | .stop => decide (s.stop ≠ .idle) | _ => true) &&
+    (match Pool.step s a with | some s' => settlingB s' as | none => false)
+
+theorem settling_of_B (s : Pool.St) (as : List Pool.Act) (h : settlingB s as = true) : Settling s as := by
+  induction as generalizing s with
+  | nil => trivial
+  | cons a as ih =>
+    simp only [settlingB, Bool.and_eq_true] at h
+    obtain ⟨h1, h2⟩ := h
+    cases hs : Pool.step s a with
+    | none => rw [hs] at h2; cases h2
+    | some s' =>
+      rw [hs] at h2
+      refine ⟨?_, ?_, ?_, s', hs, ih s' h2⟩
+      · intro j e; subst e; cases h1
+      · intro e; subst e; cases h1
+      · intro e; subst e; simpa using h1
+
+/-- non-vacuity: one worker; a job is being executed, one waits in the channel, a third is inside
+    its Send when Stop cancels the context; the pool then settles in 7 steps (`poolMu` = 26 there)
+    and Stop has returned -/
+example :
+    let s := Pool.run (Pool.init 1) [.run, .send 1, .selPush 1, .take, .send 2, .selPush 2, .send 3, .stop]
+    let as : List Pool.Act := [.selDone 3, .stop, .finish 1, .workerExit, .stop]
+    s.stop = .cancelled ∧ poolMu s = 26 ∧ settlingB s as = true ∧ (Pool.run s as).stop = .idle ∧
+    (Pool.run s as).runM = false := by decide
+
 /-- **No job starts after Stop has returned** (until the next Run): no worker is left, nothing is
     being executed, no worker can take a job. -/
 theorem C16_no_start_after_stop (nw : Nat) (acts : List Pool.Act) (hrm : (Pool.run (Pool.init nw) acts).runM = false) :
